@@ -26,6 +26,9 @@ func init() {
 func genC12(r *core.Rand, run int) *MuxScenario {
 	sc := &MuxScenario{Prop: "C12", Knobs: Knobs{MaxRecv: 65536}, Local: []string{"-"}, SkipRegister: true, NoDefaultRules: true, Rules: registryRules}
 	sc.Backends = append([]BackendSpec(nil), c11Backends...)
+	for i := range sc.Backends {
+		sc.Backends[i].Verbose = (run+i)%2 == 1 // two reflection implementations
+	}
 	// what is already there when the concurrency starts
 	switch r.Intn(4) {
 	case 0:
@@ -58,7 +61,7 @@ func genC12(r *core.Rand, run int) *MuxScenario {
 				case 3, 4:
 					op = RegOp{Kind: "drop", Target: tgt}
 				case 5:
-					op = RegOp{Kind: "regconn", Target: tgt, Adv: [][]string{{tsvc}, {svcFiles}, {tsvc, svcMessaging}, {}}[r.Intn(4)]}
+					op = RegOp{Kind: "regconn", Target: tgt, Adv: [][]string{{tsvc}, {svcFiles}, {tsvc, svcMessaging}, {}, {svcFiles, svcMessaging}, {tsvc, svcFiles, svcMessaging}, {svcMessaging, svcFiles}}[r.Intn(7)]}
 				case 6:
 					op = RegOp{Kind: "regconn", Target: tgt, Fail: r.PickS("refl:0", "refl:1", "refl:2", "refl:3")}
 				case 7:
